@@ -3,7 +3,7 @@
    runner and by vm_compute inside Coq (Cases_*.v). *)
 From Coq Require Import List NArith ZArith Bool String.
 From Coq.Strings Require Import Byte.
-From OAP Require Import Base.Bytes Base.Res Base.Text Gen.Consts Model.Handshake Model.Metadata Model.Header Model.Frame Model.Stream Model.World.
+From OAP Require Import Base.Bytes Base.Res Base.Text Gen.Consts Model.Handshake Model.Metadata Model.Header Model.Frame Model.Stream Model.World Model.Ids.
 Import ListNotations.
 Local Open Scope N_scope.
 
@@ -318,6 +318,54 @@ Definition run_st (op : bytes) (args0 : list bytes) : bytes :=
     | _ => bad end
   else bad.
 
+(* ---- request ids / constructors ----
+   id.hist <codec> <nctx> <call> <call> ...   call = <ctx>~<ctor>~<cmd>~<opts>
+   ctor: q NewRequest, Q MustNewRequest, p<code> NewResponse, P<code> MustNewResponse, u NewPush, U MustNewPush
+   opts: - or comma-joined: v<nonce>.<sighex>  r<id>  s<code>
+   output per call: <type> <cmd> <rid> <status> <verify> <nonce> <sig> joined by " ; " *)
+Definition parse_opt (o : bytes) : option popt :=
+  match o with
+  | k :: rest =>
+      if byte_eqb k "v"%byte then
+        match split_on "."%byte rest with
+        | [n; sg] => obind (undec n) (fun n => obind (unhex sg) (fun sg => Some (OVerify n sg)))
+        | _ => None end
+      else if byte_eqb k "r"%byte then option_map ORid (undec rest)
+      else if byte_eqb k "s"%byte then option_map OStatus (undec rest)
+      else None
+  | [] => None
+  end.
+Definition parse_opts (b : bytes) : option (list popt) :=
+  if bytes_eqb b (str "-") then Some [] else omap_all parse_opt (split_on ","%byte b).
+Definition parse_ctor (b : bytes) : option ctor :=
+  match b with
+  | k :: rest =>
+      if byte_eqb k "q"%byte then Some CRequest else if byte_eqb k "Q"%byte then Some CMustRequest
+      else if byte_eqb k "u"%byte then Some CPush else if byte_eqb k "U"%byte then Some CMustPush
+      else if byte_eqb k "p"%byte then option_map CResponse (undec rest)
+      else if byte_eqb k "P"%byte then option_map CMustResponse (undec rest)
+      else None
+  | [] => None
+  end.
+Definition parse_call (b : bytes) : option call :=
+  match split_on "~"%byte b with
+  | [c; ct; cmd; opts] =>
+      obind (undec c) (fun c => obind (parse_ctor ct) (fun ct => obind (undec cmd) (fun cmd =>
+        obind (parse_opts opts) (fun opts => Some (mkCall (N.to_nat c) ct cmd opts)))))
+  | _ => None
+  end.
+Definition meta_id_s (m : meta) : bytes :=
+  join sp [dec (ptype_n (m_type m)); dec (m_cmd m); dec (m_rid m); dec (m_status m); bool_s (m_verify m); dec (m_nonce m); hex (m_sig m)].
+Definition run_id (op : bytes) (args : list bytes) : bytes :=
+  if bytes_eqb op (str "id.hist") then
+    match args with
+    | codec :: nctx :: calls =>
+        match undec codec, undec nctx, omap_all parse_call calls with
+        | Some codec, Some n, Some cs => join (str " ; ") (map meta_id_s (run_calls codec (repeat 0 (N.to_nat n)) cs))
+        | _, _, _ => bad end
+    | _ => bad end
+  else bad.
+
 Definition run_line (line : bytes) : bytes :=
   match words line with
   | op :: args =>
@@ -325,6 +373,7 @@ Definition run_line (line : bytes) : bytes :=
       else if starts_with (str "md.") op then run_md op args
       else if starts_with (str "fr.") op || starts_with (str "gz.") op then run_fr op args
       else if starts_with (str "st.") op then run_st op args
+      else if starts_with (str "id.") op then run_id op args
       else bad
   | [] => bad
   end.
